@@ -84,7 +84,9 @@ DirInputHist ==
           EnumD("E", <<[EV("P") EXCEPT !.dirs = u], EV("Q")>>) >>,
        << Ext(DRange(x)) >> >> :
       u \in { <<DU("limit", <<AV("by", V("obj", [min |-> IntV(1)]))>>)>>, <<DU("limit", <<>>)>>, <<DU("limit", <<AV("by", V("obj", [x \in {} |-> 0]))>>)>> },
-      x \in { <<ArgDD("max", I, IntV(10))>>, <<ArgD("max", I)>>, <<ArgDD("tags", ListOf(S), ListV(<<StrV("t")>>)), ArgDD("max", I, IntV(10))>> } }
+      \* (a required field without a default makes the uses that are there invalid: the extension is refused, the root prints as before)
+      x \in { <<ArgDD("max", I, IntV(10))>>, <<ArgD("max", I)>>, <<ArgDD("tags", ListOf(S), ListV(<<StrV("t")>>)), ArgDD("max", I, IntV(10))>>,
+              <<ArgD("max", NonNull(I))>>, <<ArgDD("max", NonNull(I), IntV(3))>> } }
 
 \* which types are the operation roots: by a schema block that lists some of the types with the usual names and leaves others out,
 \* by a schema block with unusual names, by the names alone
@@ -116,7 +118,8 @@ PSpec == PInit /\ [][PNext]_pvars
 Result == LoadResult(EmptySchema, cs.doc, {})
 Result2 == IF "doc2" \in DOMAIN cs THEN LoadResult(Result.s, cs.doc2, {}) ELSE Result
 \* every enumerated document is a valid schema: the round trip is only asked of accepted schemas
-AllAccepted == phase = "case" => Result.ok /\ Result2.ok
+\* (the second document of a history may be one the specification refuses: the root then prints what it had)
+AllAccepted == phase = "case" => Result.ok
 Step1 == [doc |-> cs.doc, ok |-> Result.ok, why |-> Result.why, off |-> Result.off, canon |-> Canon(Result.s)]
 Emit == phase = "case" =>
   PrintT("@@VEC " \o ToJson([hist |-> IF "doc2" \in DOMAIN cs
